@@ -9,6 +9,8 @@
 //	          the commands that ran before it in this invocation (reference snapshots taken after every Runner call).
 //	crash = - | K<j> (the scripted Runner panics in its j-th call: kill -9 during a command)
 //	          | P<k> (panic at the k-th cache.VerifPoint) | P<k>t<n> (… after writing only the first n bytes: torn write)
+//	          | E<j> (the j-th write of the cache file FAILS with an error, the file is left as it was: cache.VerifWriteError)
+//	          | F<j> (the j-th write and every later one fail: the cache file has become unwritable)
 //	T<k>b ev ev ...    the same history in BINARY MODE (see below); the oracle ignores the first word of a case, so
 //	                   both kinds are judged and compared in exactly the same way
 //
@@ -407,15 +409,22 @@ type invocation struct {
 }
 
 type crashSpec struct {
-	killAt  int // K<j>
-	pointAt int // P<k>
-	tear    int // t<n>, -1 = none
+	killAt  int  // K<j>
+	pointAt int  // P<k>
+	tear    int  // t<n>, -1 = none
+	errAt   int  // E<j>
+	errFrom bool // F<j>: every write from the j-th on
 }
 
 func parseCrashSpec(s string) (crashSpec, bool) {
 	cs := crashSpec{tear: -1}
 	switch {
 	case s == "-":
+	case strings.HasPrefix(s, "E"):
+		cs.errAt, _ = strconv.Atoi(s[1:])
+	case strings.HasPrefix(s, "F"):
+		cs.errAt, _ = strconv.Atoi(s[1:])
+		cs.errFrom = true
 	case strings.HasPrefix(s, "K"):
 		cs.killAt, _ = strconv.Atoi(s[1:])
 	case strings.HasPrefix(s, "P"):
@@ -468,10 +477,24 @@ func invokeInProc(text, proj string, sel, req []string, force bool, cs crashSpec
 		}
 		panic(killed{fmt.Sprintf("A%d", j)})
 	}
+	nwrites := 0
+	if cs.errAt > 0 {
+		cache.VerifWriteError = func(string) error {
+			nwrites++
+			if nwrites == cs.errAt || (cs.errFrom && nwrites > cs.errAt) {
+				if inv.crash == "-" {
+					inv.crash = fmt.Sprintf("E%d", nwrites) // the first failing write is where the unchanged code stops
+				}
+				return errors.New("permission denied (injected)")
+			}
+			return nil
+		}
+	}
 	var runErr error
 	func() {
 		defer func() {
 			cache.VerifPoint = nil
+			cache.VerifWriteError = nil
 			if r := recover(); r != nil {
 				if k, ok := r.(killed); ok {
 					inv.crash = k.what
@@ -573,6 +596,11 @@ func invokeBinary(sb *sandbox, sel, req []string, force bool, cs crashSpec, fail
 		if cs.tear >= 0 {
 			env = append(env, "SPOK_VERIF_TEAR="+strconv.Itoa(cs.tear))
 		}
+	}
+	if cs.errAt > 0 && cs.errFrom {
+		env = append(env, "SPOK_VERIF_WRITE_ERROR_FROM="+strconv.Itoa(cs.errAt))
+	} else if cs.errAt > 0 {
+		env = append(env, "SPOK_VERIF_WRITE_ERROR="+strconv.Itoa(cs.errAt))
 	}
 	if d := os.Getenv("GOCOVERDIR"); d != "" {
 		env = append(env, "GOCOVERDIR="+d) // a -cover build (thorough tier) of the binary
@@ -689,6 +717,10 @@ func invokeBinary(sb *sandbox, sel, req []string, force bool, cs crashSpec, fail
 		inv.order = nil // the document is the order
 	case strings.Contains(se.String(), "Could not load spok cache"):
 		inv.errClass = "cache"
+	case cs.errAt > 0 && exit != 0 && strings.Contains(se.String(), "(injected)"):
+		// the injected write error was reached and reported: an explicit error about the cache
+		inv.errClass = "other"
+		inv.crash = fmt.Sprintf("E%d", cs.errAt)
 	case exit == 1 && anyFailed && len(bytes.TrimSpace(so.Bytes())) == 0 && strings.Contains(se.String(), "exited with status"):
 		// a failing command: spok reports it by exit status 1 and "Command … exited with status n", and prints no
 		// document; who was skipped is inferred (a later task whose hashing fails also gives exit 1 after a failing
@@ -1061,7 +1093,7 @@ func exhaustive(w *bufio.Writer, t int, depth int) int {
 }
 
 func crashSpecs(maxPoint int, tears []int) []string {
-	out := []string{"K1", "K2", "K3"}
+	out := []string{"K1", "K2", "K3", "E1", "E2", "E3", "E4", "F1", "F2", "F3"}
 	for k := 1; k <= maxPoint; k++ {
 		out = append(out, fmt.Sprintf("P%d", k))
 		if k%2 == 1 {
@@ -1228,7 +1260,9 @@ func randomRun(rng *rand.Rand, tpl template, pCrash, pForce float64) string {
 	}
 	cs := "-"
 	if rng.Float64() < pCrash {
-		switch rng.Intn(3) {
+		switch rng.Intn(4) {
+		case 3:
+			cs = fmt.Sprintf("%s%d", []string{"E", "F"}[rng.Intn(2)], 1+rng.Intn(5))
 		case 0:
 			cs = fmt.Sprintf("K%d", 1+rng.Intn(3))
 		case 1:
